@@ -113,6 +113,11 @@ inductive Err
   | loops
   /-- an event report does not fit an empty message: the interaction fails with `ResourceExhausted` -/
   | tooBig
+  /-- cursor level only (`Model/ChunkCursor.lean`): `list_index + 1` on the `u16` list index of
+  `send_array_items` overflows — a panic in a build with overflow checks (dev profile, the harness); the
+  release profile of the workspace has `overflow-checks = false`: there the index wraps to 0 and the
+  list is streamed again, without end -/
+  | overflow
 deriving Repr, DecidableEq, Inhabited
 
 /-! ## attribute section -/
